@@ -1,11 +1,15 @@
 #!/usr/bin/env python3
 """Confirm seeded mutants and run the checks against them.
-usage: eval_mutants.py C01 [C02 ...]   (expects /tmp/wt/<id>/_seed/mutant{A,B}.diff and demo{A,B}.py)
+usage: eval_mutants.py C01 [C02 ...]   (expects $WT_ROOT/<id>/_seed/$PATCH_PREFIX{A,B}.diff and demo{A,B}.py;
+       WT_ROOT defaults to /tmp/wt, PATCH_PREFIX to "mutant", LETTERS to "AB"; CHECK_DIR = directory holding ./check, default this /verif)
 For each mutant: apply to the scratch worktree, run the repository test-suite, run the demonstration,
 run ./check <id> (quick; thorough if quick misses) with PSEC_REPO pointing at the worktree, undo."""
 import json, os, shutil, subprocess, sys, time
 
-VERIF = os.path.dirname(os.path.dirname(os.path.abspath(__file__)))
+VERIF = os.environ.get("CHECK_DIR") or os.path.dirname(os.path.dirname(os.path.abspath(__file__)))
+WT_ROOT = os.environ.get("WT_ROOT", "/tmp/wt")
+PREFIX = os.environ.get("PATCH_PREFIX", "mutant")
+LETTERS = os.environ.get("LETTERS", "AB")
 PY = "/venv/bin/python"
 
 def sh(cmd, cwd=None, env=None, timeout=3600):
@@ -17,18 +21,18 @@ def main():
     out = {}
     for spec in sys.argv[1:]:
         pid, _, only = spec.partition(":")
-        wt = f"/tmp/wt/{pid}"
-        for m in (only or "AB"):
-            diff = f"{wt}/_seed/mutant{m}.diff"
+        wt = f"{WT_ROOT}/{pid}"
+        for m in (only or LETTERS):
+            diff = f"{wt}/_seed/{PREFIX}{m}.diff"
             demo = f"{wt}/_seed/demo{m}.py"
             if not os.path.exists(diff):
                 continue
             name = f"{pid}-{m}"
             rec = {"property": pid, "mutant": m}
-            sh("git checkout -- .", cwd=wt)
+            sh("git checkout -- psec", cwd=wt)
             rc, o = sh(f"PYTHONPATH={wt} {PY} _seed/demo{m}.py", cwd=wt, timeout=1200)
             rec["demo_clean_rc"] = rc
-            rc, o = sh(f"git apply _seed/mutant{m}.diff", cwd=wt)
+            rc, o = sh(f"git apply _seed/{PREFIX}{m}.diff", cwd=wt)
             rec["apply_rc"] = rc
             rc, o = sh(f"PYTHONPATH={wt} {PY} -m pytest -q -p no:cacheprovider 2>&1 | tail -1", cwd=wt, timeout=1200)
             rec["tests"] = o.strip()[-80:]
@@ -44,10 +48,10 @@ def main():
                 rc, o = sh(f"./check {pid} --tier thorough", cwd=VERIF, env={"PSEC_REPO": wt, "VERIF_SEED": "7"}, timeout=6000)
                 rec["thorough_rc"] = rc
                 rec["thorough_out"] = "\n".join(l for l in o.splitlines() if l.startswith(("VIOLATION", "  detail", pid, "INFRA")))[:1500]
-            sh("git checkout -- .", cwd=wt)
+            sh("git checkout -- psec", cwd=wt)
             out[name] = rec
             print(name, "tests:", rec["tests"], "| demo clean/mut:", rec["demo_clean_rc"], rec["demo_mutant_rc"], "| quick rc:", rec["quick_rc"], "| thorough rc:", rec.get("thorough_rc"), flush=True)
             print("   ", rec["quick_out"].replace("\n", "\n    ")[:700])
-    json.dump(out, open("/tmp/wt/eval_%s.json" % "_".join(sys.argv[1:])[:60], "w"), indent=1)
+    json.dump(out, open(WT_ROOT + "/eval_%s.json" % "_".join(sys.argv[1:])[:60].replace(":", ""), "w"), indent=1)
 
 main()
